@@ -13,6 +13,11 @@ def run(ctx):
         {"scens": wcat.dag_scenarios(3, rotations=(5,), with_failures=True, all_orders=True, min_n=3)[:: (4 if q else 1)], "policies": ("LIFO",), "bound": 1},
         {"scens": [s for s in wcat.token_scenarios(("file", "process")) if s["name"].endswith(":fail")], "policies": ("FIFO", "LIFO"), "bound": 1 if q else 2},
     ]
+    plan.append({"scens": wcat.special_dep_scenarios(failing=True), "policies": ("FIFO", "LIFO"), "bound": 1})
+    # a failing job taken back by a restarted experiment (kill at every point, restart at once / after the orphans ended)
+    plan.append({"scens": wcat.kill_fail_scenarios(), "policies": ("FIFO",), "kills": {"restart_bound": 0}})
+    plan.append({"scens": wcat.kill_fail_scenarios(), "policies": ("JOBS",), "kills": {"restart_bound": 0}})
+    plan.append({"scens": wcat.kill_fail_scenarios(), "policies": ("LIFO",), "kills": {"restart_bound": 0}})
     if not q:
         plan.append({"scens": wcat.dag_scenarios(4, rotations=(2,), with_failures=True, all_orders=False, min_n=4)[::3], "policies": ("FIFO",), "bound": 1, "cap": 4000})
         plan.append({"scens": wcat.dag_scenarios(3, rotations=(7,), with_failures=True, all_orders=False, min_n=2), "policies": ("FIFO",), "bound": 2, "cap": 20000})
